@@ -16,7 +16,9 @@ RULE = (
     "spaces/tabs, non-ASCII letters/punctuation/blanks/format characters and (backslash form) control characters, "
     "written (a) with a backslash before every ASCII punctuation character or (b) with each character spelled raw "
     "(non-punctuation only), backslash-escaped, or as decimal/hex/named reference; each spelling is placed in the "
-    "seven contexts (paragraph, ATX heading, emphasis, link text, image alt, link title, table cell) under two "
+    "seven contexts (paragraph, ATX heading, emphasis, link text, image alt, link title, table cell; plus their "
+    "compositions: nested descriptions, emphasis inside link text/description/heading/cell, image and reference titles in "
+    "three quoting styles, reference-form link text and alt, list item, block quote, setext heading) under two "
     "presets and the rendered HTML is compared byte for byte with the context's frame around the independently "
     "HTML-escaped t. Non-trivial = t has >= 2 characters and >= 1 ASCII punctuation character; distinct = distinct "
     "case hash."
@@ -186,6 +188,28 @@ def check(case) -> Res:
             "cell-first-of-2": (s + " | x\n-|-\n", f"<table>\n<thead>\n<tr>\n<th>{T}</th>\n<th>x</th>\n</tr>\n</thead>\n</table>\n"),
             "cell-last-of-2": ("x | " + s + "\n-|-\n", f"<table>\n<thead>\n<tr>\n<th>x</th>\n<th>{T}</th>\n</tr>\n</thead>\n</table>\n"),
         }
+        # the same contexts composed with each other (an image description inside an image description or a link,
+        # emphasis inside link text or a description, titles of images and of reference definitions in all three
+        # quoting styles, paragraphs inside containers, setext headings)
+        contexts.update({
+            "alt-nested": ("![![" + s + "](v)](u)\n", f'<p><img src="u" alt="{T}"{void}></p>\n'),
+            "alt-nested-3": ("![![![" + s + "](w)](v)](u)\n", f'<p><img src="u" alt="{T}"{void}></p>\n'),
+            "alt-in-linktext": ("[![" + s + "](v)](u)\n", f'<p><a href="u"><img src="v" alt="{T}"{void}></a></p>\n'),
+            "alt-emphasis": ("![*" + s + "*](u)\n", f'<p><img src="u" alt="{T}"{void}></p>\n'),
+            "alt-linktext": ("![[" + s + "](v)](u)\n", f'<p><img src="u" alt="{T}"{void}></p>\n'),
+            "linktext-emphasis": ("[*" + s + "*](u)\n", f'<p><a href="u"><em>{T}</em></a></p>\n'),
+            "heading-emphasis": ("# *" + s + "*\n", f"<h1><em>{T}</em></h1>\n"),
+            "setext": (s + "\n===\n", f"<h1>{T}</h1>\n"),
+            "image-title": ('![x](u "' + e0 + s + e1 + '")\n', f'<p><img src="u" alt="x" title="{escape_ref(e0 + t + e1)}"{void}></p>\n'),
+            "title-single": ("[x](u '" + e0 + s + e1 + "')\n", f'<p><a href="u" title="{escape_ref(e0 + t + e1)}">x</a></p>\n'),
+            "title-paren": ("[x](u (" + e0 + s + e1 + "))\n", f'<p><a href="u" title="{escape_ref(e0 + t + e1)}">x</a></p>\n'),
+            "ref-title": ('[x][r]\n\n[r]: u "' + e0 + s + e1 + '"\n', f'<p><a href="u" title="{escape_ref(e0 + t + e1)}">x</a></p>\n'),
+            "ref-linktext": ("[" + s + "][r]\n\n[r]: u\n", f'<p><a href="u">{T}</a></p>\n'),
+            "ref-alt": ("![" + s + "][r]\n\n[r]: u\n", f'<p><img src="u" alt="{T}"{void}></p>\n'),
+            "listitem": ("- " + s + "\n", f"<ul>\n<li>{T}</li>\n</ul>\n"),
+            "quote": ("> " + s + "\n", f"<blockquote>\n<p>{T}</p>\n</blockquote>\n"),
+            "cell-emphasis": ("| *" + s + "* |\n|-|\n", f"<table>\n<thead>\n<tr>\n<th><em>{T}</em></th>\n</tr>\n</thead>\n</table>\n"),
+        })
         for cname, (doc, expected) in contexts.items():
             out = md.render(doc)
             if out != expected:
